@@ -8,7 +8,7 @@ NUM = 16
 LEVEL = "exploration"
 RULE = ("random Model histories: n, m <= 6, point counts from 2 to 2n+1 (growing, interpolation, regression), spreads over 4 decades, base "
         "points up to 1e4 from the origin, preconditioning on/off; arbitrary interleavings (<= 16 operations) of {fit, Lagrange query, "
-        "replace a point, re-evaluate a point at the same location (new residual), grow, shift base to xopt / arbitrarily}. After every "
+        "replace a point, re-evaluate a point at the same location (new residual), add a sample to a point, grow, shift base to xopt / arbitrarily}. After every "
         "fit: interpolation (npt <= n+1) m(y_k) = r_k, regression residual orthogonal to the normalised design columns; at any time "
         "Lagrange L_k(y_j) = delta_kj (npt <= n+1) or sum_k L_k(y_j) = 1 (recomputed from the CURRENT points, so a stale factorisation "
         "shows); across every shift: model values at fixed absolute probes, g, H and absolute point positions unchanged. Tolerance 1e-13 cond(W) max(1, |xbase|/spread) relative. Non-trivial = history "
@@ -176,6 +176,12 @@ def run_history(seed, k, res):
                 x = M.xopt() + rng.normal(size=n) * spread
                 ops.append("grow")
                 M.change_point(j, x, f(M.xbase + x), evc)
+            elif rng.random() < 0.15:
+                # another sample at an existing point (noise averaging): the stored residual becomes the mean and the incumbent may move
+                j = int(rng.integers(M.npt()))
+                ops.append("resample(%d)" % j)
+                M.add_new_sample(j, f(M.xbase + M.points[j, :]) * rng.uniform(0.0, 2.0))
+                nrepl += 1
             elif rng.random() < 0.2:
                 j = int(rng.integers(M.npt()))
                 ops.append("re-evaluate(%d)" % j)
